@@ -12,4 +12,10 @@ def resolver : String := "fc893de27c26c5f74381c563"
 /-- full text (not only control structure) of `structDesc`, `tField`, `tType`, `fromDefsFields`,
     `fromDefsField`, `GetField`, `newTType`: the descriptor tables every codec theorem takes for granted -/
 def descTable : String := "cbfebd4eaff63fd247cc0a76"
+/-- every store into package-level state of `internal/reflect` and `internal/defs` outside `init` functions
+    ("pkg/file:func writes var"): the descriptor build under its lock (`createStructDesc`,
+    `newStructDescAndPrefetch`, `fetchStructDesc`, `rollbackBuild`, `newTType`), the two table registrations
+    that only `init` calls, and the caller-less caching `ResolveFields` under its own lock — nothing on the
+    encode / size / decode paths -/
+def sharedWrites : List String := ["defs/resolver.go:ResolveFields writes fieldsCache", "reflect/append_list.go:registerListAppendFunc writes listAppendFuncs", "reflect/append_map.go:registerMapAppendFunc writes mapAppendFuncs", "reflect/desc.go:createStructDesc writes buildCached", "reflect/desc.go:createStructDesc writes buildLinked", "reflect/desc.go:fetchStructDesc writes buildLinked", "reflect/desc.go:newStructDescAndPrefetch writes buildCached", "reflect/desc.go:newStructDescAndPrefetch writes prefetchStructDescCache", "reflect/desc.go:rollbackBuild writes prefetchStructDescCache", "reflect/ttype.go:newTType writes ttypes"]
 end Frugal.Skeleton
